@@ -217,4 +217,66 @@ CASES = [
          old="{% macro add_api_version_header_to_metadata(service_version) %}", new="{% macro add_api_version_header_to_metadata(service_version) %}{# twin #}"),
     dict(id="twin-python-comment", prop="*", kind="twin", file="schema/wrappers.py",
          old="    def grpc_stub_type(self) -> str:", new="    # twin: comment only\n    def grpc_stub_type(self) -> str:"),
+
+    # ---------------- more behaviour-preserving twins, run against every check
+    dict(id="twin-rename-loopvar-client-macro", prop="*", kind="twin", file=S + "_client_macros.j2",
+         old="""            {% for field in method.flattened_fields.values() %}
+            {{ field.name }}: Optional[{{ field.ident }}] = None,
+            {% endfor %}""",
+         new="""            {% for fld in method.flattened_fields.values() %}
+            {{ fld.name }}: Optional[{{ fld.ident }}] = None,
+            {% endfor %}"""),
+    dict(id="twin-merge-nested-if", prop="*", kind="twin", file=S + "transports/base.py.j2",
+         old="    {% if api.has_operations_mixin %}\n    {% if \"ListOperations\" in api.mixin_api_methods %}",
+         new="    {% if api.has_operations_mixin %}{# twin #}\n    {% if \"ListOperations\" in api.mixin_api_methods %}"),
+    dict(id="twin-docstring-text", prop="*", kind="twin", file=S + "pagers.py.j2",
+         old="        \"\"\"Instantiate the pager.", new="        \"\"\"Create the pager."),
+    dict(id="twin-new-unrelated-property", prop="*", kind="twin", file="schema/wrappers.py",
+         old="    @property\n    def grpc_stub_type(self) -> str:",
+         new="    @property\n    def is_unary(self) -> bool:\n        return not (self.client_streaming or self.server_streaming)\n\n    @property\n    def grpc_stub_type(self) -> str:"),
+    dict(id="twin-with-block-around-call", prop="*", kind="twin", file=S + "_client_macros.j2",
+         old="        rpc = self._transport._wrapped_methods[self._transport.{{ method.transport_safe_name|snake_case}}]",
+         new="        {% with m = method %}rpc = self._transport._wrapped_methods[self._transport.{{ m.transport_safe_name|snake_case}}]{% endwith %}\n"),
+    dict(id="twin-python-rename-local-retry", prop="*", kind="twin", file="schema/api.py",
+         old="""            mc = next(
+                (
+                    c
+                    for c in self.opts.retry.get("methodConfig", [])
+                    if selector in c.get("name")
+                ),
+                None,
+            )
+            if mc:
+                # Set the timeout according to this method config.
+                if mc.get("timeout"):
+                    timeout = self._to_float(mc["timeout"])
+
+                # Set the retry according to this method config.
+                if "retryPolicy" in mc:
+                    r = mc["retryPolicy"]""",
+         new="""            entry = next(
+                (
+                    cfg
+                    for cfg in self.opts.retry.get("methodConfig", [])
+                    if selector in cfg.get("name")
+                ),
+                None,
+            )
+            if entry:
+                # Set the timeout according to this method config.
+                if entry.get("timeout"):
+                    timeout = self._to_float(entry["timeout"])
+
+                # Set the retry according to this method config.
+                if "retryPolicy" in entry:
+                    r = entry["retryPolicy"]"""),
+    dict(id="twin-blank-lines-and-comments-templates", prop="*", kind="twin", file=S + "transports/grpc.py.j2",
+         old="        # Generate a \"stub function\" on-the-fly which will actually make\n        # the request.\n        # gRPC handles serialization and deserialization, so we just need\n        # to pass in the functions for each.\n        if '{{ method.transport_safe_name|snake_case }}' not in self._stubs:",
+         new="        # Create the stub lazily.\n\n        if '{{ method.transport_safe_name|snake_case }}' not in self._stubs:"),
+    dict(id="twin-set-alias-in-template", prop="*", kind="twin", file=S + "transports/rest_base.py.j2",
+         old="        {% set body_spec = method.http_options[0].body %}\n        {%- if body_spec %}",
+         new="        {% set primary = method.http_options[0] %}{% set body_spec = primary.body %}\n        {%- if body_spec %}"),
+    dict(id="twin-reorder-independent-python-statements", prop="*", kind="twin", file="schema/wrappers.py",
+         old="        retry = None\n        timeout = None\n" if False else "        pb_type = page_field_size.type\n",
+         new="        pb_type = page_field_size.type  # the declared type\n"),
 ]
